@@ -483,4 +483,7 @@ def check(run, replay=None):
         "trace_counters": totals,
         "model_drift": {"layerB_predictions_compared_with_real_code": compared, "disagreements": drift, "samples": drift_samples},
     }
+    if run.prop == "C01" and replay is None:
+        import fam_builder
+        coverage["declaration_history"] = sub_stage(run, fam_builder.FAM)
     return finish(run, "model_checking", coverage, ASSUMPTIONS)
